@@ -74,16 +74,19 @@ structure Cfg where
   /-- `setitem_scalar_mask` on a masked reference looks at a mask of the reference's own length
       (false: writes every referenced element, as written) -/
   maskOnMaskedHonoured : Bool := false
+  /-- the component getters (`Vec3Array_get` and its copies) keep the mask of a masked reference
+      (false: `_indices` is dropped, as first examined) -/
+  componentKeepsMask : Bool := true
   deriving DecidableEq, Repr
 
 /-- the code as first examined (every defect present) — kept to document the former defects -/
-def Cfg.asWritten : Cfg := ⟨false, false, false, false, false⟩
+def Cfg.asWritten : Cfg := ⟨false, false, false, false, false, false⟩
 /-- every site as evidently intended -/
-def Cfg.repaired : Cfg := ⟨true, true, true, true, true⟩
+def Cfg.repaired : Cfg := ⟨true, true, true, true, true, true⟩
 /-- THE CODE AS IT IS NOW (decided by the correspondence run of tools/props/c19.py on every run): the four
     defects are fixed upstream-side in /repo; `setitem_scalar_mask` on a masked reference still ignores the
     mask (recorded known finding) -/
-def Cfg.current : Cfg := ⟨true, true, true, true, false⟩
+def Cfg.current : Cfg := ⟨true, true, true, true, false, true⟩
 
 /-- lowest admissible normalised start in `extract_slice_indices` -/
 def Cfg.minStart (c : Cfg) : Int := if c.sliceEmptyBackward then -1 else 0
@@ -687,6 +690,8 @@ inductive Op
   | makeReadOnly (v : Nat)
   | iaddScalar (v : Nat) (x : Int)
   | iaddVector (v d : Nat)
+  | allocWide (w : Nat) (cells : List Int)  -- `V3iArray(n)` filled component by component (`w` cells per element)
+  | comp (v k : Nat)                        -- `a.x` / `.y` / ... : component array `k` of vector array `v`
   deriving DecidableEq, Repr
 
 /-- what Python sees -/
@@ -794,6 +799,14 @@ def step (cfg : Cfg) (s : State) : Op → State × Res
     | .ok a, .ok da => s.withHeap (iaddVector cfg s.heap a da)
     | .error e, _ => (s, .error e)
     | _, .error e => (s, .error e)
+  | .allocWide w cells => let (h, v) := allocWide s.heap w cells; s.push h v
+  | .comp v k =>
+    match s.view v with
+    | .ok a =>
+      match compView cfg.componentKeepsMask a k with
+      | .ok c => s.push s.heap c
+      | .error e => (s, .error e)
+    | .error e => (s, .error e)
 
 /-- run a program; results in order -/
 def run (cfg : Cfg) : State → List Op → State × List Res
